@@ -99,43 +99,61 @@ func c09ResponseSubsets(c *Ctx) {
 		k = 12
 	}
 	n := 0
-	for mask := 0; mask < 1<<k; mask++ {
-		n++
-		rs, as := validSpecs(cfg, now, fmt.Sprint(n))
-		a := buildAssertion(as)
-		r := buildResponse(rs, a)
-		var removed []string
-		for i := 0; i < k; i++ {
-			if mask&(1<<i) != 0 {
-				parts[i].rm(r, a)
-				removed = append(removed, parts[i].name)
+	// the same enumeration under other settings: every guard must hold whichever branches the configuration selects
+	variants := []struct {
+		name   string
+		set    func(c *Cfg)
+		sample int
+	}{
+		{"default", func(c *Cfg) {}, 1},
+		{"idp-initiated", func(c *Cfg) { c.AllowIdpInit = true }, 1},
+		{"custom-validators", func(c *Cfg) { c.CustomReqID, c.CustomAud = Bptr(true), Bptr(true) }, 4},
+		{"entity-id+pinned", func(c *Cfg) { c.SpEntity, c.Trust, c.C = "urn:example:sp", tPinned, 0 }, 4},
+	}
+	for vi, vr := range variants {
+		cfg := defaultCfg()
+		vr.set(&cfg)
+		for mask := 0; mask < 1<<k; mask++ {
+			if !c.Thorough() && vr.sample > 1 && (mask+vi)%vr.sample != 0 {
+				continue
 			}
-		}
-		// re-apply a valid IdP signature after the removal: Response-signed, Assertion-signed, encrypted in turn
-		lay := mask % 3
-		slot := a
-		switch lay {
-		case 0:
-			SignInto(r, 0)
-		case 1:
-			if _, ok := a.Attr("ID"); ok {
-				SignInto(a, 0)
-			}
-		case 2:
-			if _, ok := a.Attr("ID"); ok {
-				SignInto(a, 0)
-			}
-			e := Enc(a, 0)
-			for i, kd := range r.Kids {
-				if kd == slot {
-					r.Kids[i] = e
+			n++
+			rs, as := validSpecs(cfg, now, fmt.Sprint(n))
+			a := buildAssertion(as)
+			r := buildResponse(rs, a)
+			var removed []string
+			for i := 0; i < k; i++ {
+				if mask&(1<<i) != 0 {
+					parts[i].rm(r, a)
+					removed = append(removed, parts[i].name)
 				}
 			}
+			// re-apply a valid IdP signature after the removal: Response-signed, Assertion-signed, encrypted in turn
+			lay := mask % 3
+			slot := a
+			switch lay {
+			case 0:
+				SignInto(r, 0)
+			case 1:
+				if _, ok := a.Attr("ID"); ok {
+					SignInto(a, 0)
+				}
+			case 2:
+				if _, ok := a.Attr("ID"); ok {
+					SignInto(a, 0)
+				}
+				e := Enc(a, 0)
+				for i, kd := range r.Kids {
+					if kd == slot {
+						r.Kids[i] = e
+					}
+				}
+			}
+			c.Count(fmt.Sprintf("removed_count/%d", len(removed)))
+			c.Count(fmt.Sprintf("layout/%d", lay))
+			addRun(c, g, &Run{Cfg: cfg, IDs: []string{"req-1"}, Now: now, Cur: cfg.AcsURL, Doc: r},
+				map[string]string{"class": "optional-subset", "config": vr.name, "removed": strings.Join(removed, ","), "layout": fmt.Sprint(lay)}, true)
 		}
-		c.Count(fmt.Sprintf("removed_count/%d", len(removed)))
-		c.Count(fmt.Sprintf("layout/%d", lay))
-		addRun(c, g, &Run{Cfg: cfg, IDs: []string{"req-1"}, Now: now, Cur: cfg.AcsURL, Doc: r},
-			map[string]string{"class": "optional-subset", "removed": strings.Join(removed, ","), "layout": fmt.Sprint(lay)}, true)
 	}
 	// the artifact path: subsets of the ArtifactResponse's own optional parts
 	for mask := 0; mask < 1<<5; mask++ {
